@@ -13,7 +13,7 @@ import json, os
 from vlib.core import VERIF, CheckError
 from vlib.syslevel import run_many
 from vlib.conclevel import run_mt, calibrate, observed_locks
-from checks.c09 import setup_conc, query_handlers, query_unprotected, model_lines, corpus_cases, new_violations, coqchk_props, AREA
+from checks.c09 import setup_conc, query_handlers, load_handlers, query_unprotected, model_lines, corpus_cases, new_violations, coqchk_props, AREA
 
 OUTPUTS = [
     ("file", b'[snoopy]\noutput = file:@D@/out.log\n'),
@@ -49,8 +49,9 @@ def outcome(r):
 
 def check(run):
     lib, facts = setup_conc(run)
+    query_handlers(run)
     ok, failed, log = run.coq_props(["Properties_C10.v"])
-    hs = query_handlers(run)
+    hs = load_handlers(run)
     quick = run.tier == "quick"
     st = {"plans": [], "calib": {}, "results": [], "nwin": 0, "ro": {"child": None}}
 
